@@ -146,6 +146,21 @@ def gen_world(rng, policy=None, allow_zero_runtime=False, closed_loop=False, con
             "policy": policy}
 
 
+def gen_fuzz_world(rng):
+    """a world driven by the harness's adversarial (but contract-respecting) scheduler"""
+    w = gen_world(rng, policy="EDF", conditionals=rng.random() < 0.5, closed_loop=rng.random() < 0.1)
+    f = w["flags"]
+    f.update({"runtime_variance": rng.choice([0, 0, 10]), "scheduler_run_at_worker_free": False,
+              "drop_skipped_tasks": rng.random() < 0.3, "enforce_deadlines": False})
+    w["fuzz"] = {"seed": rng.randint(0, 10 ** 6), "lookahead": rng.choice([0, 0, 5, 50, 200]),
+                 "retract": rng.random() < 0.5, "release_taskgraphs": rng.random() < 0.3,
+                 "p_cancel": rng.choice([0.0, 0.03, 0.1]), "p_unplaced": rng.choice([0.05, 0.15, 0.4]),
+                 "p_future": rng.choice([0.0, 0.4, 0.8])}
+    w["policy"] = "FUZZ"
+    w["flags"]["scheduler"] = "EDF"         # unused: the harness substitutes its own policy
+    return w
+
+
 PLANNERS = ["ILP", "TetriSched_Gurobi", "TetriSched_CPLEX", "Z3"]
 
 
